@@ -84,6 +84,9 @@ func checkArrivalOrderIndependence(c *core.Ctx, rule string, only ...string) int
 		pos  token.Pos
 		run  func(order []int) (string, error)
 		want func(n int) string // the text for n items arriving in order, where the layout is specified here
+		// volume: a run whose rows add up to a few hundred kilobytes (got, want): what is written does not depend on how
+		// much has been written before (block buffers, flush thresholds)
+		volume func() (string, string, error)
 	}
 	var cons []consumer
 	// fastaio.WriteAlignment / WriteWrapAlignment
@@ -143,6 +146,25 @@ func checkArrivalOrderIndependence(c *core.Ctx, rule string, only ...string) int
 				err = fmt.Errorf("error reported")
 			}
 			return out, err
+		}, volume: func() (string, string, error) {
+			// twelve rows of 30 to 60 kB each (long names, as of records named after file paths, and long SNP lists)
+			var feed []eval.Value
+			want := "query,SNPs\n"
+			for i := 0; i < 12; i++ {
+				name := fmt.Sprintf("q%d_", i) + strings.Repeat("n", 30000+2500*i)
+				r := absValue(lt, "l", eval.K(0)).(*eval.StructVal)
+				r.F["queryname"] = eval.S(name)
+				r.F["idx"] = eval.K(int64(i))
+				r.F["snps"] = eval.NewSlice(eval.S(fmt.Sprintf("A%dT", i+1)), eval.S("C7G"))
+				feed = append(feed, r)
+				want += name + fmt.Sprintf(",A%dT|C7G\n", i+1)
+			}
+			ev := newEval(c)
+			out, errs, err := callWriter(c, ev, fn, lt, feed, nil)
+			if err == nil && len(errs.Sent) > 0 {
+				err = fmt.Errorf("error reported")
+			}
+			return out, want, err
 		}})
 	} else {
 		und("snps.writeOutput")
@@ -270,6 +292,18 @@ func checkArrivalOrderIndependence(c *core.Ctx, rule string, only ...string) int
 		if cn.want != nil {
 			w := cn.want(nItems)
 			c.Ob(rule+"/"+cn.name+"/layout", ref == w, cn.pos, "%d rows arriving in order are written as %q, want %q", nItems, firstN(ref, 300), firstN(w, 300))
+		}
+		if cn.volume != nil {
+			got, w, err := cn.volume()
+			if err != nil {
+				c.Und(rule+"/"+cn.name+"/volume", cn.pos, "cannot evaluate: %v", err)
+			} else {
+				detail := ""
+				if got != w {
+					detail = fmt.Sprintf("%d bytes written, %d expected; %d rows written, %d expected", len(got), len(w), strings.Count(got, "\n"), strings.Count(w, "\n"))
+				}
+				c.Ob(rule+"/"+cn.name+"/volume", got == w, cn.pos, "twelve rows of 30-60 kB each: %s", detail)
+			}
 		}
 		var bad []string
 		for _, p := range perms {
